@@ -310,11 +310,12 @@ def c05_scenario(rep, rng, scratch, idx, force=None):
         template = "midrun"
     if template == "three-step" and mode not in ("queue", "restart"):
         template = "midrun"
-    stop_timeout = rng.choice([300, 500, 300, 500, 0]) if mode == "restart" else rng.choice([300, 500])
+    # 1000 is spelt without a unit ("--stop-timeout 1": seconds, the deprecated but documented form)
+    stop_timeout = rng.choice([300, 500, 300, 500, 0, 1000]) if mode == "restart" else rng.choice([300, 500])
     debounce = rng.choice([20, 40])
     if "stop_timeout_ms" in force:
         stop_timeout, debounce = force["stop_timeout_ms"], force.get("debounce_ms", debounce)
-    flags = list(MODES[mode_name]) + ["--debounce", "%dms" % debounce, "--stop-timeout", "%dms" % stop_timeout]
+    flags = list(MODES[mode_name]) + ["--debounce", "%dms" % debounce, "--stop-timeout", "1" if stop_timeout == 1000 else "%dms" % stop_timeout]
     stop_sig = None
     if rng.random() < 0.4 and mode in ("restart", "signal") and "--signal" not in flags:
         stop_sig = rng.choice([("SIGUSR2", 12), ("SIGINT", 2), ("SIGHUP", 1)])
@@ -355,6 +356,8 @@ def c05_scenario(rep, rng, scratch, idx, force=None):
         child_kind = "long-ignore"  # the signal must not end the run, so that "no new start" is observable
     child_kind = force.get("child") or child_kind
     run_ms = {"quick": 30, "medium": 400, "selfexit": 800, "long": 1300, "long-ignore": 1300, "long-slowexit": 1300}[child_kind]
+    if stop_timeout == 1000 and child_kind.startswith("long"):
+        run_ms = 2600  # the run must outlast change + stop timeout by a wide margin, or its own end looks like the kill
     child = ["--exit-after", str(run_ms)]
     if child_kind == "long-ignore":
         child += ["--ignore"]
